@@ -102,7 +102,7 @@ def gen(rng, n, tier):
         if rng.random() < 0.4:                                          # vertices with altitudes: along-edge distances stay planimetric (abs_curv is 2-D)
             for e in edges:
                 e['z'] = [float(rng.randint(0, 60)) for _ in e['geom']]
-        out.append({'edges': edges, 'tracks': tracks, 'radius': radius, 'tmode': rng.choice(['inc', 'inc', 'equal', 'dec', 'shuffle']), 'noise': rng.choice([1.0, 5.0, 50.0]),
+        out.append({'edges': edges, 'tracks': tracks, 'radius': radius, 'tmode': rng.choice(['inc', 'inc', 'equal', 'dec', 'shuffle']), 'prior': rng.choice([None, None, [4.0, 1.0], [0.25, 3.0], [8.0, 0.5]]), 'noise': rng.choice([1.0, 5.0, 50.0]),
                     'res': rng.choice([None, [3, 3], [5, 1], [2.5, 7], [1.5, 1.5]]), 'margin': rng.choice([0.05, 0.15, 0.5])})
     return out
 
@@ -129,6 +129,8 @@ def run(case):
     M = _mods()
     net, tracks = build(case)
     before = [[[o.position.getX(), o.position.getY(), o.position.getZ(), o.timestamp.toAbsTime()] for o in t] for t in tracks]
+    if case.get('prior'):                         # the same track objects were already map-matched with other parameters (a radius / noise sweep)
+        mapOnNetwork(tracks[0] if len(tracks) == 1 else TrackCollection(tracks), net, gps_noise=case['noise'] * case['prior'][1], search_radius=case['radius'] * case['prior'][0])
     mapOnNetwork(tracks[0] if len(tracks) == 1 else TrackCollection(tracks), net, gps_noise=case['noise'], search_radius=case['radius'])
     st = lambda s: [[s[0].getX(), s[0].getY()], s[1], s[2], s[3]]
     inf = [[st(t['hmm_inference', k]) for k in range(len(t))] for t in tracks]
